@@ -3,6 +3,7 @@ Module to provide for the ability to parse the text for a link.
 """
 
 import logging
+import string
 import urllib
 import urllib.parse
 from typing import Dict, List, Optional, Tuple
@@ -443,13 +444,11 @@ class LinkParseHelper:
             percent_index += 1
             if special_character == "%":
                 hex_guess_characters = link_to_encode[percent_index : percent_index + 2]
-                if len(hex_guess_characters) == 2:
-                    try:
-                        int(hex_guess_characters, 16)
-                        el_parts.extend(["%", hex_guess_characters])
-                        percent_index += 2
-                    except ValueError:
-                        el_parts.append("%25")
+                if len(hex_guess_characters) == 2 and all(
+                    i in string.hexdigits for i in hex_guess_characters
+                ):
+                    el_parts.extend(["%", hex_guess_characters])
+                    percent_index += 2
                 else:
                     el_parts.append("%25")
             else:
